@@ -521,6 +521,25 @@ class C16(F.Check):
                                             key=key, family="implicit Quantity<u,T>", native=False)
                     ks += [cell["as"], cell["impl"]]
                 self.cells.append(cell)
+        # ------------------------------------------------------------------ solver-decided: the unit attached is exactly the constant
+        # (x * C) read in an SI unit is x * N / D with N/D from the SI definitions (c = 299792458 m/s, dnu_Cs = 9192631770 Hz, g0 = 9.80665 m/s^2)
+        self.scaled = []
+        sc = [("c_in_mps", "SPEED_OF_LIGHT", "meters / second", 299792458, 1),
+              ("c_in_kmps", "SPEED_OF_LIGHT", "kilo(meters) / second", 299792458, 1000),
+              ("cs_in_hz", "CESIUM_HYPERFINE_TRANSITION_FREQUENCY", "hertz", 9192631770, 1),
+              ("cs_in_mhz", "CESIUM_HYPERFINE_TRANSITION_FREQUENCY", "mega(hertz)", 919263177, 100000),
+              ("g0_in_mps2", "STANDARD_GRAVITY", "meters / squared(second)", 196133, 20000),
+              ("gen37_in_m", "make_constant(Meters{} * mag<3>() / mag<7>())", "meters", 3, 7),
+              ("q_times_c", None, None, 299792458, 1)]
+        for nm, c, u, n_, d_ in sc:
+            if c is None:
+                body_ = "return (seconds(x) * SPEED_OF_LIGHT).coerce_in(meters);"
+            else:
+                body_ = "return (x * %s).coerce_in(%s);" % (c, u)
+            k = F.Kernel("c16_scaled_%s" % nm, "int64_t", [("int64_t", "x")], body_, key={"constant": c or "seconds(x) * SPEED_OF_LIGHT", "read_in": u or "meters", "N": n_, "D": d_},
+                         family="scaled_by_constant")
+            ks.append(k)
+            self.scaled.append((k, n_, d_))
         return ks
 
     # ---- obligations
@@ -547,6 +566,24 @@ class C16(F.Check):
 
     def obligations(self, K):
         obs = []
+        for k, n_, d_ in getattr(self, "scaled", []):
+            if K[k.name].kernel.dropped:
+                self.failed(obs, "scaled_exact:" + k.name, k, k.key, "expression must compile")
+                continue
+
+            def fnE(K, x, name=k.name, n_=n_, d_=d_):
+                e = K[name](x)
+                prod = T.imul(T.sval(x), T.const_int(n_))
+                return T.and_(T.not_(e.ub), T.eq(T.imod(prod, T.const_int(d_)), T.const_int(0))), \
+                    T.eq(T.imul(T.sval(e.ret), T.const_int(d_)), prod)
+            obs.append(F.Ob("scaled_exact:" + k.name, [("x", T.BV(64))], fnE, key=k.key, kernels=[k.name], routes=F.INT_ROUTES,
+                            note="(x * C) read in an SI unit equals x*N/D exactly whenever that is an integer (N/D from the SI definition)"))
+
+            def fnR(K, x, name=k.name, n_=n_):
+                e = K[name](x)
+                return T.in_range(T.imul(T.sval(x), T.const_int(n_)), -(1 << 63), (1 << 63) - 1), T.not_(e.ub)
+            obs.append(F.Ob("scaled_reach:" + k.name, [("x", T.BV(64))], fnR, key=k.key, kernels=[k.name], routes=F.INT_ROUTES,
+                            note="x*N fits int64 => no UB"))
         cov = {"in_refused_as_model_predicts": 0, "in_available_as_model_predicts": 0, "in_compiles_although_not_representable": 0,
                "in_refused_although_representable": 0, "grid_cells_undecided_by_model": 0}
         # ---- A. identity
